@@ -256,7 +256,7 @@ class QueryModel(c02.CappedModel):
                     continue
                 ctx.distinct('outcomes', ('sel', kind, tuple(got), len(seq)))
                 if got != exp:
-                    kindv = 'select_many:order' if sorted(got) == sorted(exp) else 'select_many:content'
+                    kindv = 'select_many:order' if sorted(map(repr, got)) == sorted(map(repr, exp)) else 'select_many:content'
                     bad(kindv, ['select_many', kind, seq], 'returned %s, expected %s' % (got, exp), exp, got)
                 elif ty != 'QuerySet':
                     bad('select_many:type', ['select_many', kind, seq], 'returned a %s' % ty, 'QuerySet', ty)
@@ -297,7 +297,7 @@ class QueryModel(c02.CappedModel):
                         if len(got) > 1:
                             ctx.distinct('nontrivial', (self.schema.name, kind, hname, tuple(map(tuple, chain)), tuple(got), repr(cl)))
                         if got != exp:
-                            kindv = 'navigate_many:order' if sorted(got) == sorted(exp) else 'navigate_many:content'
+                            kindv = 'navigate_many:order' if sorted(map(repr, got)) == sorted(map(repr, exp)) else 'navigate_many:content'
                             bad(kindv, ['navigate_many', kind, hname, start, chain, cl], 'returned %s, expected %s' % (got, exp), exp, got)
                         elif ty != 'QuerySet':
                             bad('navigate_many:type', ['navigate_many', kind, hname, start, chain, cl], 'returned a %s' % ty, 'QuerySet', ty)
